@@ -1,5 +1,6 @@
 """Running one GEN configuration: TLC enumerates, every printed state is replayed into the real library."""
 import json
+import zlib
 
 from . import tlc
 from .common import Replayer, absorb, Machinery
@@ -17,7 +18,9 @@ def run_config(chk, module, cfg, overrides, make_case, worker_module, worker_fn,
         cnt[0] += 1
         if cnt[0] % sample_every == 1:
             chk.sample(sample_fn(rec) if sample_fn else rec)
-        case = make_case(rec, cnt[0])
+        # the number handed to make_case selects variants (rotation, widening, ...): it is derived from the state itself,
+        # not from the order in which TLC's workers happened to print it, so that a run is reproducible
+        case = make_case(rec, zlib.crc32(json.dumps(rec, sort_keys=True).encode()) >> 3)
         if case is not None:
             rp.add(case)
 
